@@ -66,12 +66,27 @@ def run(prop, tier, seed, t0):
         infos.append((u, i))
     info = merge_info(infos)
     extra = dict(unit_details=info.pop("unit_details", {}))
-    return core.finish(prop, tier, seed, obs, t0, info, extra_cov=extra)
+    def replay_fn(o):
+        if o.get("unit") == "kani_l2" and o["id"].startswith("l2|"):
+            from . import replay
+            return replay.replay_l2_obligation(o, tier)
+        return {}
+    return core.finish(prop, tier, seed, obs, t0, info, extra_cov=extra, replay_fn=replay_fn)
 
 
 def replay(prop, path):
-    print(open(path).read())
-    return 0
+    """Re-run a replay file: for Kani L2 cases the recorded case is executed again on the real crate."""
+    rec = json.load(open(path))
+    print("failed obligation:", rec.get("failed_obligation"))
+    if "case" in rec:
+        from . import replay as RP
+        exe = RP.build_axreal()
+        real = RP.run_axreal(exe, rec["case"])
+        dev = RP.compare(rec["case"], real)
+        print(json.dumps(dict(real_execution=real, deviations_on_real_code=dev), indent=1))
+        return 1 if dev else 0
+    print(rec.get("verifier_output", ""))
+    return 1
 
 
 HOOK_COMMITS = ["b0eef22"]
